@@ -302,12 +302,9 @@ Section Model.
      a *! (x *! x) +! b *! (y *! y) +! cc *! (z *! z)
        -! two *! (d *! x +! e *! y +! f *! z) +! g].
 
-  (* ConversionSurfaceMCNPToT4.sq_to_gq: the expansion, negated when the
-     quadric is positive at (x, y, z) *)
-  Definition sq_to_gq (sq : list T) : list T :=
-    let gq := sq_expand sq in
-    let centre := mkV (nth 7 sq 0!) (nth 8 sq 0!) (nth 9 sq 0!) in
-    if sltb S 0! (eval_quadric gq centre) then map (sneg S) gq else gq.
+  (* ConversionSurfaceMCNPToT4.sq_to_gq: the expansion, with the sign of the
+     card (the flip for a quadric positive at (x, y, z) was removed in 66f68d1) *)
+  Definition sq_to_gq (sq : list T) : list T := sq_expand sq.
 
   (* Transformation.transformation *)
   Definition transformation (tr : list T) (s : msurf T) : res (msurf T) :=
@@ -475,10 +472,10 @@ Section Model.
      (since the repair of the inline TRCL spelling): one id -> the TR card;
      three numbers -> a translation; otherwise cosines for the starred form
      (entries 4..12 only: a 13th entry is kept) and normalize_transform *)
-  Definition parse_kw_tr (star : bool) (entries : list T) (trs : list (Z * list T)) (trid : Z)
-    : res (list T) :=
+  Definition parse_kw_tr (empty_star_identity : bool) (star : bool) (entries : list T)
+             (trs : list (Z * list T)) (trid : Z) : res (list T) :=
     match List.length entries with
-    | 0%nat => if star then normalize_transform [] else Ok []
+    | 0%nat => if star && empty_star_identity then normalize_transform [] else Ok []
     | 1%nat => rmap (firstn 12) (lookup trid trs)
     | 3%nat => Ok (entries ++ ident9)
     | _ => if star
@@ -487,8 +484,11 @@ Section Model.
                              ++ skipn 12 entries))
            else normalize_transform (map Some entries)
     end.
-  Definition parse_trcl := parse_kw_tr.
-  Definition parse_fill_tr := parse_kw_tr.
+  (* the two keywords differ only without entries: a bare *TRCL goes through
+     normalize_transform([]) (identity), *FILL=n without a transformation is
+     FILL=n (c2e06ed) *)
+  Definition parse_trcl := parse_kw_tr true.
+  Definition parse_fill_tr := parse_kw_tr false.
 
   (* a TRCL value applied to one surface of the cell (pot_transform leaf) *)
   Definition trcl_convert (v : list T) (s : msurf T) : res (list (t4surf T * Z)) :=
